@@ -441,7 +441,7 @@ func runC04(c *Ctx) {
 				return false
 			}
 			la := lenArg(bin.Y)
-			return la != nil && la == m.GenKeys && isForwardRangeIndex(bin.X)
+			return la != nil && (la == m.GenKeys || w.SameValue(run, la, m.GenKeys)) && isForwardRangeIndex(bin.X)
 		})
 		c.Check(outerDone, "R3.nosilent", "Run|success only after every agent key was processed", w.Pos(r.Pos()), "must-fact: the range over Generate's agent keys is exhausted", "Run can report success before all agent keys were signed and added")
 	}
@@ -453,7 +453,7 @@ func runC04(c *Ctx) {
 			return false
 		}
 		la := lenArg(bin.Y)
-		return la != nil && m.CSRsCall != nil && la == ssa.Value(m.CSRsCall) && isForwardRangeIndex(bin.X)
+		return la != nil && m.CSRsCall != nil && (la == ssa.Value(m.CSRsCall) || w.SameValue(run, la, m.CSRsCall)) && isForwardRangeIndex(bin.X)
 	})
 	c.Check(innerDone, "R3.nosilent", "Run|certificates added only after every CSR of the key was signed", w.Pos(m.AddCall.Pos()), "must-fact: the range over CSRs() is exhausted", "AddCertsToAgent can run before all CSRs of the key were signed")
 	// receivers: CSRs() and AddCertsToAgent on the same agent key; Sign gets the ranged CSR
